@@ -352,6 +352,8 @@ def _base_of(field: FieldInfo):
         return cands[0] if cands else ["none"]
     if s.startswith("attr:"):
         return ["none"]
+    if s == "int":
+        return ["int", 1]
     return SYM(field.name)
 
 
@@ -466,10 +468,11 @@ def alphabet(field: FieldInfo, index: int, tier: str) -> list:
             out.extend(_nest(q, tier, level if q in reps else 1))
         return out
     if s == "int":
+        # base = an integer (what models contain; symbolic sums over L are slow in sympy)
         return [
+            ["int", 1], ["int", 0], ["int", 2],
             SYM(n),
             SYM(n, integer=True, nonnegative=True),
-            ["int", 0], ["int", 1], ["int", 2],
             ["cmp", "inc", [SYM(n, integer=True, nonnegative=True)]],
         ]
     if s == "size":
